@@ -41,6 +41,11 @@ CLAIMED = {
   "CueDisj.tla computes for every expression D1 & D2 (& D3) of disjunctions over 10 leaves (atoms, types, a bound, open structs) with every pattern of top-level marks the value/default pair, its resolution (unique value / ambiguous / bottom), and the same for the expression unified with each of 8 concrete probes; TLC checks commutativity/rotation, idempotence on atoms and D within V. All expressions with two operands of <= 2 alternatives are enumerated exhaustively (168 511 states), three operands and up to 3 alternatives as a seeded sample. Each state is evaluated by the real evaluator: bottom iff no disjunct survives, an ambiguous choice must be an incomplete error and never a silently chosen value, a unique concrete resolution must be that value. Outcomes on which pairwise readings of the rules disagree, or with more than two marked operands (where the spec's elimination sentence is admittedly unfinished), are counted and left out.",
   "trusted: TLC, the transcription of the rules, the renderer; canaries (flipped expectation) must be noticed. Nested marks are outside (as the property states).",
   "DESIGN.md §3 C04"),
+ "C05": ("model_checking",
+  "TLA+ membership checker for field constraints and closedness (CueStruct.tla: Admits over schema syntax trees), checked by TLC; every (schemas, data) state replayed into the real evaluator",
+  "CueStruct.tla gives each schema conjunct a syntax tree (regular/optional/required fields, patterns, ellipsis, close(), definitions, embeddings, a nested struct) and defines Admits(schemas, data) from the language specification: present restrictable fields allowed by every closed conjunct (embeddings widen, definitions close recursively, close() one level), every applicable constraint satisfied with a concrete result, every required field present, hidden/definition fields never restricted. TLC enumerates every multiset of <= 3 conjuncts of the 24-schema alphabet with each of 14 data structs (exhaustive), checks order-freeness and that open conjuncts never restrict, and each state is unified by the real evaluator in two textual orders; the verdict Validate(Concrete(true)) == nil must equal Admits.",
+  "trusted: TLC, the transcription of the spec rules for the alphabet's constructs, the renderer (fresh definition names); canary (flipped verdict) must be noticed. Constructs outside the alphabet (comprehensions, dynamic fields, deeper nesting) are not covered.",
+  "DESIGN.md §3 C05"),
 }
 
 NOT_YET = "check not built yet in this round (see DESIGN.md §8 for the order of construction)"
